@@ -6,8 +6,8 @@ import CanvasModel.C19
 start tag, pop at the end tag.  This file states the same semantics without any stack:
 
 * `cascade` — the style of one element as a pure function of the inherited style and the element's
-  own declarations: presentation attributes in order, then the matching style-sheet rules in order of
-  appearance, then the style attribute (svg.go setStyling);
+  own declarations: presentation attributes in order, then the matching style-sheet rules by specificity
+  and, for equal specificity, in order of appearance, then the style attribute (svg.go setStyling);
 * `render` — environment passing: every child subtree is rendered from the SAME inherited
   environment (the parent's computed style, view and importer state); only the document-order
   outputs (rules seen so far, recorded layers, remaining path lengths, error flag) are threaded
@@ -35,7 +35,7 @@ def styleCore (diag : α) (s : Sty α) (a : Attr α) : Sty α :=
   | .style props => propsCore o diag s props
 
 def rulesCore (diag : α) (elems : List Elem) (s : Sty α) (rules : List (Rule α)) : Sty α :=
-  rules.foldl (fun s r => if ruleApplies r elems then propsCore o diag s r.props else s) s
+  (stableSort (fun nr => nr.1) (matching rules elems)).foldl (fun s nr => propsCore o diag s nr.2.props) s
 
 /-- the computed style of an element: inherited style `s`, own attributes `attrs`, the rules seen so
 far, the element stack `elems` (innermost first, the element itself on top), the reference length for
@@ -91,33 +91,6 @@ def renderList : List (Tree α) → Inh α → Thr α → Thr α
 end
 
 /-! ## the cascade of CSS2 §6.4.3 / SVG 1.1 §6.4 (specification, L3) -/
-
-/-- specificity of a selector: id selectors, then class/attribute selectors, then type names -/
-def specificity (s : Selector) : Nat :=
-  s.foldl (fun n nd =>
-    nd.attrs.foldl (fun m a => m + (if a.attr == "id" && a.op == 1 then 2 ^ 20 else 2 ^ 10))
-      (n + (if nd.typ != "" && nd.typ != "*" then 1 else 0))) 0
-
-/-- the highest specificity among the selectors of the rule that apply to the element (`none`: the rule does not apply) -/
-def ruleSpec (r : Rule α) (elems : List Elem) : Option Nat :=
-  r.selectors.foldl (fun best s =>
-    if ruleApplies (⟨[s], r.props⟩ : Rule α) elems then
-      match best with
-      | none => some (specificity s)
-      | some b => some (max b (specificity s))
-    else best) none
-
-/-- `x` precedes everything in the list: it goes in front of the first element whose key is not smaller -/
-def insFront {β : Type} (key : β → Nat) (x : β) : List β → List β
-  | [] => [x]
-  | y :: ys => if key x ≤ key y then x :: y :: ys else y :: insFront key x ys
-
-/-- stable sort by key: equal keys keep their order of appearance -/
-def stableSort {β : Type} (key : β → Nat) (l : List β) : List β := l.foldr (insFront key) []
-
-/-- the rules that apply to the element, with their specificity, in order of appearance -/
-def matching (rules : List (Rule α)) (elems : List Elem) : List (Nat × Rule α) :=
-  rules.filterMap (fun r => (ruleSpec r elems).map (fun n => (n, r)))
 
 /-- SVG 1.1 / CSS2 cascade: presentation attributes, then the matching rules by specificity and, for equal
 specificity, by order of appearance, then the style attribute -/
